@@ -21,7 +21,7 @@ import (
 //
 //	d = |Δvec| + h1 + h2 ;  result = d + a1 + a2 if that is > 0, else d
 //
-// compared in nanoseconds with tolerance 2 ns + 1e-9 relative. The guard
+// compared in nanoseconds with tolerance 2 ns + 1e-12 relative. The guard
 // `adjusted > 0` is a discontinuity: when the exact adjusted value is within
 // rounding distance of zero (1 ns + 1e-12 of the operand magnitudes) float64
 // may legitimately take either branch, so both are accepted there (label
@@ -72,7 +72,7 @@ func c21FloatDist(a, b c21Coord) float64 {
 }
 
 func genC21(t *rapid.T) c21Case {
-	dim := rapid.IntRange(1, 16).Draw(t, "dim")
+	dim := rapid.SampledFrom([]int{1, 2, 3, 4, 5, 6, 7, 8, 9, 10, 11, 12, 13, 14, 15, 16, 0}).Draw(t, "dim")
 	dimB := dim
 	shape := rapid.IntRange(0, 19).Draw(t, "shape") // 0,1 mismatched dims; 2,3 equal points; 4 near points
 	if shape <= 1 {
@@ -180,7 +180,11 @@ func c21Dist(a, b *coordinate.Coordinate) (d time.Duration, panicked any) {
 
 func c21Within(gotNs int64, wantSec *big.Float) bool {
 	wantNs, _ := new(big.Float).SetPrec(c21Prec).Mul(wantSec, c21bf(1e9)).Float64()
-	return math.Abs(float64(gotNs)-wantNs) <= 2+1e-9*math.Abs(wantNs)
+	// 2 ns cover the truncation to whole nanoseconds and every float64 rounding
+	// in the domain (the largest value, 1e5 s = 1e14 ns, has an ulp of 0.016 ns;
+	// the rounding of a 16-term sum of squares, its root and four additions
+	// stays below 0.3 ns); the relative term is head-room, not an excuse
+	return math.Abs(float64(gotNs)-wantNs) <= 2+1e-12*math.Abs(wantNs)
 }
 
 func bodyC21(c c21Case, x *vkit.Ctx) {
@@ -264,8 +268,32 @@ func bodyC21(c c21Case, x *vkit.Ctx) {
 		want = adjusted
 	}
 
-	for i, got := range []time.Duration{ab, ba} {
-		dir := []string{"a→b", "b→a"}[i]
+	// the same estimate asked through a Client that sits at a (and at b):
+	// Client.DistanceTo "returns the estimated RTT from the client's coordinate
+	// to other"
+	ests := []time.Duration{ab, ba}
+	dirs := []string{"a→b", "b→a"}
+	if len(c.A.Vec) >= 1 {
+		cfg := coordinate.DefaultConfig()
+		cfg.Dimensionality = uint(len(c.A.Vec))
+		for i, pair := range [][2]*coordinate.Coordinate{{a, b}, {b, a}} {
+			cl, err := coordinate.NewClient(cfg)
+			if err != nil {
+				x.Inconclusive("coordinate client could not be created")
+				return
+			}
+			if err := cl.SetCoordinate(pair[0]); err != nil {
+				x.Violationf("client-rejects-valid-coordinate", "SetCoordinate(%+v) on a client of dimensionality %d: %v", *pair[0], len(c.A.Vec), err)
+				return
+			}
+			ests = append(ests, cl.DistanceTo(pair[1]))
+			dirs = append(dirs, []string{"client at a→b", "client at b→a"}[i])
+		}
+		x.Label("client-path")
+	}
+
+	for i, got := range ests {
+		dir := dirs[i]
 		if got < 0 {
 			x.Violationf("negative-estimate", "%s: estimate %v is negative (d=%.12g s, d+a1+a2=%.12g s)", dir, got, df, adjf)
 			return
